@@ -98,9 +98,23 @@ static std::vector<Sys> systems_for(int b, bool T) {
     return out;
 }
 
+// C13_LOG=<file>: one line per noteworthy outcome (event, tag, key, detail); development aid, not part of the result
+#include <fcntl.h>
+#include <unistd.h>
+static void logev(const std::string &ev, const std::string &tag, const std::string &key, const std::string &detail) {
+    static const char *path = getenv("C13_LOG");
+    if (!path) return;
+    int fd = ::open(path, O_WRONLY | O_APPEND | O_CREAT, 0644);
+    if (fd < 0) return;
+    std::string l = ev + "\t" + tag + "\t" + key + "\t" + detail + "\n";
+    if (::write(fd, l.data(), l.size()) < 0) {}
+    ::close(fd);
+}
+static void cfail(const std::string &sub, const std::string &key, const std::string &detail) { vf::fail(sub, key, detail); logev("FAIL", sub, key, detail.substr(0, 300)); }
 static bool allowed_breakdown(const std::string &w) { return w.find("Zero rho") != std::string::npos || w.find("Zero omega") != std::string::npos || w.find("breakdown") != std::string::npos; }
 static bool unsupported(const std::string &w) { return w.find("not supported") != std::string::npos; }
 
+static std::string refconvstr(const Out &ref, bool conv) { return std::string(vf::KS() << "ref " << (conv ? "converged" : "not converged") << " its=" << ref.iters << " res=" << ref.resid); }
 static void judge(const std::string &key, const std::string &tag, Sys &S, const Req &rq, const Out &o, const Out &ref, bool ref_converged) {
     const std::string in = vf::KS() << " :: form=" << (rq.form ? "S(A,rhs,x)" : "S(rhs,x)") << " " << rq.coarsening << "+" << rq.relax << "+" << rq.solver << " :: " << S.descr << " A=" << sg::show(S.A);
     if (!o.ran) { vf::count("skipped." + tag); return; }
@@ -109,21 +123,21 @@ static void judge(const std::string &key, const std::string &tag, Sys &S, const 
         if (unsupported(o.what)) { vf::count("unsupported." + tag); return; }
         if (o.what.find("HARNESS") != std::string::npos) { vf::fail("harness.param", key, o.what + in); return; }
         if (allowed_breakdown(o.what)) { vf::count("breakdown_exception." + tag); return; }
-        if (ref.threw && ref.what == o.what) { vf::count("same_exception_as_scalar." + tag); return; }
+        if (ref.threw && ref.what == o.what) { vf::count("same_exception_as_scalar." + tag); logev("SAMEEXC", tag, key, o.what); return; }
         // a scalar coarsening (ruge_stuben) under a formulation that converts every scalar level to b x b blocks (as_block, hybrid):
         // the number of C-points need not be a multiple of b; amgcl refuses with a precondition, which is a clean outcome
         if (rq.coarsening == "ruge_stuben" && o.what.find("not divisible by block size") != std::string::npos) { vf::count("ruge_stuben_level_not_divisible." + tag); return; }
-        vf::fail("path.exception." + tag, key, "exception '" + o.what + "'" + (ref.threw ? " (scalar reference threw '" + ref.what + "')" : " (scalar reference did not throw)") + in);
+        cfail("path.exception." + tag, key, "exception '" + o.what + "'" + (ref.threw ? " (scalar reference threw '" + ref.what + "')" : " (scalar reference did not throw)") + in);
         return;
     }
     if (o.levels >= 2) vf::count("levels_ge_2." + tag);
-    if (!o.opdiff.empty()) vf::fail("path.operator." + tag, key, o.opdiff + in);
+    if (!o.opdiff.empty()) cfail("path.operator." + tag, key, o.opdiff + in);
     size_t cap = (size_t)rq.maxiter + (rq.solver == "bicgstabl" ? 1 : 0);   // default L = 2
-    if (o.iters > cap) vf::fail("path.iters." + tag, key, vf::KS() << "iters=" << o.iters << " maxiter=" << rq.maxiter << in);
+    if (o.iters > cap) cfail("path.iters." + tag, key, vf::KS() << "iters=" << o.iters << " maxiter=" << rq.maxiter << in);
     bool fin = all_finite(o.x) && std::isfinite(o.resid);
     if (!fin) {
-        vf::count("nonfinite." + tag);
-        if (ref_converged) vf::fail("path.solves." + tag, key, vf::KS() << "non-finite result (reported " << o.resid << ") while the scalar formulation converged (" << ref.iters << " its, " << ref.resid << ")" << in);
+        vf::count("nonfinite." + tag); logev("NONFINITE", tag, key, ref.threw ? "ref threw " + ref.what : refconvstr(ref, ref_converged));
+        if (ref_converged) cfail("path.solves." + tag, key, vf::KS() << "non-finite result (reported " << o.resid << ") while the scalar formulation converged (" << ref.iters << " its, " << ref.resid << ")" << in);
         return;
     }
     ld tr = truth(S.A, S.f, o.x);
@@ -131,14 +145,14 @@ static void judge(const std::string &key, const std::string &tag, Sys &S, const 
     ld diff = fabsl((ld)o.resid - tr);
     // a run that ended above its starting residual (x0 = 0: relative residual 1) returned no solution and claims none; the bound
     // below is in terms of max(||x0||,||x||) and does not cover the intermediate growth of a diverging BiCGStab-type recurrence
-    if (o.resid > 1 || tr > 1) { vf::count("diverged_not_judged_for_truthfulness." + tag); }
-    else if (!(diff <= bd)) vf::fail("path.truthful." + tag, key, vf::KS() << "reported=" << o.resid << " true=" << (double)tr << " |diff|=" << (double)diff << " > bound=" << (double)bd << " iters=" << o.iters << " kappa=" << S.sv.kappa << in);
-    else if (o.resid < 1e-8 && !(tr <= 1e-8L * (1 + 1e-6L) + bd)) vf::fail("path.tol." + tag, key, vf::KS() << "reported=" << o.resid << " < tol but true=" << (double)tr << " bound=" << (double)bd << in);
+    if (o.resid > 1 || tr > 1) { vf::count("diverged_not_judged_for_truthfulness." + tag); logev("DIVERGED", tag, key, vf::KS() << "reported=" << o.resid << " true=" << (double)tr << " " << refconvstr(ref, ref_converged)); }
+    else if (!(diff <= bd)) cfail("path.truthful." + tag, key, vf::KS() << "reported=" << o.resid << " true=" << (double)tr << " |diff|=" << (double)diff << " > bound=" << (double)bd << " iters=" << o.iters << " kappa=" << S.sv.kappa << in);
+    else if (o.resid < 1e-8 && !(tr <= 1e-8L * (1 + 1e-6L) + bd)) cfail("path.tol." + tag, key, vf::KS() << "reported=" << o.resid << " < tol but true=" << (double)tr << " bound=" << (double)bd << in);
     else { ld q = bd > 0 ? diff / bd : 0; vf::count(q <= 1e-3L ? "margin.diff_over_bound_le_1e-3" : q <= 1e-1L ? "margin.diff_over_bound_le_1e-1" : "margin.diff_over_bound_le_1"); }
     bool conv = o.resid < 1e-8;
     if (conv) vf::count("converged." + tag);
     if (o.iters >= 2) vf::count("iters_ge_2." + tag);
-    if (ref_converged && !conv) vf::fail("path.solves." + tag, key, vf::KS() << "not converged: reported=" << o.resid << " true=" << (double)tr << " after " << o.iters << " its; scalar formulation: " << ref.iters << " its, " << ref.resid << in);
+    if (ref_converged && !conv) cfail("path.solves." + tag, key, vf::KS() << "not converged: reported=" << o.resid << " true=" << (double)tr << " after " << o.iters << " its; scalar formulation: " << ref.iters << " its, " << ref.resid << in);
 }
 
 int main(int argc, char **argv) {
@@ -171,6 +185,7 @@ int main(int argc, char **argv) {
                     bool refconv = false;
                     if (!ref.threw && all_finite(ref.x) && std::isfinite(ref.resid)) { ld tr = truth(S.A, S.f, ref.x); refconv = ref.resid < 1e-8 && tr < 1e-8L * (1 + 1e-6L) + bound(ref.iters, S.A.n, S.sv, 0, sg::norm2_ld(ref.x), S.fn, ref.resid); }
                     vf::count(ref.threw ? "scalar_reference.threw" : refconv ? "scalar_reference.converged" : "scalar_reference.not_converged");
+                    if (ref.threw) logev("REFTHREW", "scalar", key, ref.what); else if (!refconv) logev("REFNOTCONV", "scalar", key, refconvstr(ref, false));
                     bool any2 = false;
                     for (auto &p : ps) for (int form = 0; form < 2; ++form) {
                         // single-precision preconditioner: only the documented call form S(A, rhs, x) with the user's double-precision
